@@ -24,6 +24,10 @@ func c10Gen(g *G) {
 	g.Emit("c10.run o,o,o g0;w1;u;a0;j;close;g1;w2;a1;j;close;u;g2;w3;a2", "reconnect")
 	g.Emit("c10.run o,o,o,o K600;g0;w1;a0;j;g1;w2;T1;j;g2;w3;a2;j;g3;w4;u;a3", "server-clock-ahead")
 	g.Emit("c10.run o,o,o K86400;g0+1;w2;c(T0,a1);j;g2;w3;U2;j;g0;w4;a0", "server-clock-ahead")
+	// members with an empty body inside containers (the members after them are still messages); content-related
+	// messages of more than 2^20 bytes (a file part): each must be acknowledged
+	g.Emit("c10.run o,o g0+1;w2;c(u,0,u,a0);c(0,a1,x)", "empty-member-in-container")
+	g.Emit("c10.run o g0;w1;ub;a0;c(p,ub)", "content-message-beyond-2^20")
 	// a long-lived server session: its seq_no has passed 2^31 (negative as a signed 32-bit number) and 2^32 - 1
 	g.Emit("c10.run o,o Q1073741823;g0;w1;u;a0;c(u,x);j;g1;w2;n5;a1", "server-seqno-beyond-int32")
 	g.Emit("c10.run o Q2147483646;g0;w1;u;a0", "server-seqno-beyond-int32")
